@@ -492,6 +492,37 @@ class NoSeekFile:
         pass
 
 
+class ShortReadFile:
+    """a raw, non-seekable stream (pipe / socket / unbuffered file): read(n) returns at most the next
+    burst size although more bytes follow; only an EMPTY read means end of file"""
+
+    def __init__(self, data, bursts):
+        self._data, self._pos, self._bursts, self._i = data, 0, list(bursts) or [1], 0
+
+    def read(self, n=-1):
+        left = len(self._data) - self._pos
+        k = left if n is None or n < 0 else min(n, left)
+        if k > 0 and n is not None and n >= 0:
+            k = max(1, min(k, self._bursts[self._i % len(self._bursts)]))
+            self._i += 1
+        out = self._data[self._pos : self._pos + k]
+        self._pos += k
+        return out
+
+    def close(self):
+        pass
+
+
+def short_read_chunks(data, bufsize, bursts):
+    """the items FileWrapper(ShortReadFile(data, bursts), bufsize) yields: one read per item"""
+    f, out = ShortReadFile(data, bursts), []
+    while True:
+        c = f.read(bufsize)
+        if not c:
+            return out
+        out.append(c)
+
+
 RAW_RANGES = ["bytes", "bytes=", "bytes=-", "bytes=a-b", "bytes=1-0", "bytes=5-2", "bytes=--1", "bytes=1--2", "bytes=+1-2", "bytes=1_0-", "bytes=0-1,", "bytes=,0-1", "bytes=0-1;2-3", "bytes=0x1-", "bytes=١-", "=0-1", "bytes=3-1,4-5", "bytes=2-3,0-1", "bytes=-2,0-1", "bytes=0-,3-4", "bytes= 0 - 1 ", "BYTES=0-1", "bytes =0-1", "Bytes=0-", "bytes=0-1-2", "bytes==0-1", "bytes=-1-", "bytes=0-18446744073709551616", "bytes=99999999999999999999-", "bytes=-99999999999999999999", "bytes=00-01", "bytes=0 1", "bytes=1 - 2 , 4 -"]
 
 
@@ -536,6 +567,11 @@ class RangesStream(Stream):
             R(fl(0, 1), 6, (3, 3), if_range={"etag": ["xyz, abc", False]}, etag=["abc", False]),
             R(fl(0, 1), 6, (3, 3), if_range={"etag": ["W/abc", False]}, etag=["abc", False]),
             R(fl(0, 1), 6, (3, 3), if_range={"etag": [",", False]}, etag=["abc", False]),
+            # short reads (C11-f1): read(4) returns 2 or 3 bytes although more follows
+            dict(R(fl(0, 9), 10, (), kind="file", seekable=False, bufsize=4), bursts=[2, 3]),
+            dict(R(fl(3, 8), 10, (), kind="file", seekable=False, bufsize=4), bursts=[1]),
+            dict(R(None, 10, (), kind="file", seekable=False, bufsize=4), bursts=[3]),
+            dict(R({"items": [{"k": "sfx", "n": 4}]}, 13, (), kind="file", seekable=False, bufsize=16), bursts=[5, 2]),
             # argument forms of make_conditional
             dict(R(fl(0, 1), 6, (3, 3)), accept=False, clen="len", via="environ"),
             dict(R(fl(0, 1), 6, (3, 3)), accept="", clen="len", via="request"),
@@ -582,6 +618,11 @@ class RangesStream(Stream):
                 sizes.append(s)
                 left -= s
             c = self.R(spec, n, sizes, kind, rng.random() < 0.5, rng.choice([1, 2, 3, 4, 7, 16]), rng.choice(["GET"] * 6 + ["HEAD", "POST"]), style=rng.randrange(4))
+            if kind == "file" and rng.random() < 0.35:
+                # a raw stream with short reads (bursts not multiples of the block size): only an
+                # empty read ends the body (seeded change C11-f1)
+                c["seekable"] = False
+                c["bursts"] = [rng.choice([1, 1, 2, 3, 5, 7]) for _ in range(rng.choice([1, 2, 3]))]
             if rng.random() < 0.25:
                 # the argument forms of make_conditional: accept_ranges False / True / a unit string,
                 # complete_length given or None, the request as environ or as Request object
@@ -636,6 +677,8 @@ class RangesStream(Stream):
         data = unhx(case["data"])
         if case["kind"] == "file":
             bs = case["bufsize"]
+            if case.get("bursts"):
+                return data, short_read_chunks(data, bs, case["bursts"])
             return data, [data[i : i + bs] for i in range(0, len(data), bs)]
         return data, split_chunks(data, case["sizes"])
 
@@ -662,6 +705,8 @@ class RangesStream(Stream):
             r = Response(c for c in chunks)
         else:
             f = io.BytesIO(data) if case["seekable"] else NoSeekFile(data)
+            if case.get("bursts"):
+                f = ShortReadFile(data, case["bursts"])
             r = Response(wrap_file(env, f, case["bufsize"]), direct_passthrough=True)
         if case["etag"] is not None:
             r.headers["ETag"] = render_tag(*case["etag"])
@@ -696,7 +741,7 @@ class RangesStream(Stream):
         if not ascii_clean(h.get("Range"), h.get("If-Range")):
             return None
         etag = None if case["etag"] is None else render_tag(*case["etag"])
-        seek = str(case["bufsize"]) if case["kind"] == "file" and case["seekable"] else "~"
+        seek = str(case["bufsize"]) if case["kind"] == "file" and case["seekable"] and not case.get("bursts") else "~"
         kind = {"list": 0, "gen": 1, "file": 2}[case["kind"]]
         body = out_list(hx(c) for c in chunks)
         if "accept" in case:
@@ -897,6 +942,9 @@ class SendFileStream(Stream):
             F(req="range", rng_spec=fl(2, 4), src="bytesio"),
             F(req="range", rng_spec=fl(2, 4), src="fileobj"),
             F(req="range", rng_spec=fl(2, 4), src="noseek"),
+            F(n=16385, req="none", src="shortread"),
+            F(n=8193, req="range", rng_spec=fl(2, 4), src="shortread"),
+            F(n=10, req="ims", src="shortread", last_modified=T0 - 100, change="size"),
             F(req="range", rng_spec=fl(2, 4), conditional=False),
             # seeded change C11-c2: seekable file, start > 0, stop < length, short first block
             F(n=16385, req="range", rng_spec=fl(8190, 8200)),
@@ -939,7 +987,7 @@ class SendFileStream(Stream):
             etag = rng.choice([True, True, True, True, False, "v1", "custom tag", "*", 'a"b'])
             yield self.F(
                 n=n,
-                src=rng.choice(["path", "path", "path", "bytesio", "fileobj", "noseek"]),
+                src=rng.choice(["path", "path", "path", "bytesio", "fileobj", "noseek", "shortread"]),
                 mtime=T0 + rng.choice([0, 5, 3600]) + rng.choice([0.0, 0.25, 0.5, 0.875]),  # dyadic: exact in ns and as float
                 etag=etag,
                 last_modified=rng.choice([None, None, None, T0 - 100, T0 + 7]),
@@ -962,6 +1010,9 @@ class SendFileStream(Stream):
             return io.BytesIO(data)
         if src == "fileobj":
             return open(path, "rb")
+        if src == "shortread":
+            # a raw stream whose read(8192) returns short blocks before the end (C11-f1)
+            return ShortReadFile(data, [3000, 5000, 1])
         return NoSeekFile(data)
 
     def _send(self, case, path, data, headers):
@@ -1101,7 +1152,7 @@ class SendFileStream(Stream):
             ma = ma[1]
         earg = "A" if e is True else "O" if e is False else "g" + hs(e)
         lmarg = None if case["last_modified"] is None else case["last_modified"] + ORIGIN
-        return line("sendfile", hs(case["method"]), opt(hs, rng_h), opt(hs, ifr), opt(hs, ims), opt(hs, inm), "~", b01(is_path), opt(str, size), opt(str, sec + ORIGIN if is_path else None), micro if is_path else 0, hs(str(mt2)), check, earg, opt(str, lmarg), b01(case["conditional"]), hx(d2), b01(case["src"] != "noseek"), opt(str, ma))
+        return line("sendfile", hs(case["method"]), opt(hs, rng_h), opt(hs, ifr), opt(hs, ims), opt(hs, inm), "~", b01(is_path), opt(str, size), opt(str, sec + ORIGIN if is_path else None), micro if is_path else 0, hs(str(mt2)), check, earg, opt(str, lmarg), b01(case["conditional"]), hx(d2), b01(case["src"] not in ("noseek", "shortread")), opt(str, ma))
 
     def canon_model(self, case, out):
         # model: status|CR|CL|body|AR|etag|lm-instant ; real adds the handed-out validators, which the
